@@ -46,6 +46,9 @@ pub trait ExSeek {
 pub trait ExRead {
     type ExternalTraitSpecificationFor: std::io::Read;
     /// ASSUMED: the only read failure is end of file (no I/O errors while loading the log)
+    /// std documentation: `Ok(n)` guarantees `n <= buf.len()`; the buffer keeps its length
+    fn read(&mut self, buf: &mut [u8]) -> (r: std::io::Result<usize>)
+        ensures final(buf)@.len() == old(buf)@.len(), (match r { Ok(n) => n <= old(buf)@.len(), Err(_) => true });
     fn read_exact(&mut self, buf: &mut [u8]) -> (r: std::io::Result<()>)
         ensures final(buf)@.len() == old(buf)@.len(),
             r is Ok <==> old(buf)@.len() <= vx_unread(old(self)).len(),
